@@ -366,6 +366,22 @@ MUse(t, k) ==
        /\ reads' = Read(tb)
     /\ UNCHANGED <<stack, nid, nfile, gdefs, empty>>
 
+\* pcall(function(p) : a function literal as call argument; its body is closed by `end)` or continued by a chained call
+CFunc(p) ==
+    /\ On("cfunc") /\ More /\ CanOpen
+    /\ prog' = Append(prog, [infn |-> InFunc, vis |-> VisIds, vispend |-> PendIds, top |-> AtTop, ingf |-> InGFunc, k |-> "cfunc", p |-> p, pid |-> nid])
+    /\ stack' = Declare(Push([k |-> "func", vars |-> <<>>, call |-> TRUE]), p, nid)
+    /\ nid' = nid + 1
+    /\ UNCHANGED <<nfile, reads, gdefs, empty>>
+
+\* end):next(function(q) : closes the literal and opens the next one of the same call chain (one statement)
+CChain(q) ==
+    /\ On("cfunc") /\ More0 /\ Top.k = "func" /\ "call" \in DOMAIN Top
+    /\ prog' = Append(prog, [infn |-> InFunc, vis |-> VisIds, vispend |-> PendIds, top |-> AtTop, ingf |-> InGFunc, k |-> "cchain", p |-> q, pid |-> nid])
+    /\ stack' = Declare(Append(Pop, [k |-> "func", vars |-> <<>>, call |-> TRUE]), q, nid)
+    /\ nid' = nid + 1
+    /\ UNCHANGED <<nfile, reads, gdefs, empty>>
+
 \* return u : last statement of its block (at the top level: the value of the module)
 Return(u) ==
     /\ On("ret") /\ More
@@ -386,7 +402,7 @@ Require(n, k) ==
 \* end : closes do/while/if/else/for/function bodies
 End ==
     /\ More0 /\ Top.k \in {"do", "while", "if", "else", "for", "func"}
-    /\ prog' = Append(prog, [infn |-> InFunc, vis |-> VisIds, vispend |-> PendIds, top |-> AtTop, ingf |-> InGFunc, k |-> "end"])
+    /\ prog' = Append(prog, [infn |-> InFunc, vis |-> VisIds, vispend |-> PendIds, top |-> AtTop, ingf |-> InGFunc, k |-> "end", call |-> ("call" \in DOMAIN Top)])
     /\ stack' = IF Top.k = "func" /\ "pend" \in DOMAIN Top
                 THEN Declare(Pop, Top.pend.n, Top.pend.id)     \* `local n = function` becomes visible now
                 ELSE Pop
@@ -418,6 +434,7 @@ Next ==
     \/ \E n \in Names, p \in Names : LFunc(n, p) \/ LEqFunc(n, p) \/ GFunc(n, p)
     \/ \E t \in Names, c \in BOOLEAN, p \in Names : Meth(t, c, p)
     \/ \E t \in Names, k \in 1..MaxItems : MUse(t, k)
+    \/ \E p \in Names : CFunc(p) \/ CChain(p)
     \/ \E u \in UNames : Return(u)
     \/ \E n \in Names, k \in 1..MaxFiles : Require(n, k)
     \/ End
@@ -461,7 +478,7 @@ ReadsDeclared == \A r \in reads : r < nid
 ----------------------------------------------------------------------------
 (* Output *)
 
-Closer(fr) == IF fr.k = "repeat" THEN [k |-> "untilc"] ELSE [k |-> "end"]
+Closer(fr) == IF fr.k = "repeat" THEN [k |-> "untilc"] ELSE [k |-> "end", call |-> ("call" \in DOMAIN fr)]
 \* closers for the open blocks, innermost first
 Closers == [i \in 1..(Len(stack) - 1) |-> Closer(stack[Len(stack) + 1 - i])]
 
